@@ -121,6 +121,32 @@ def rule_range(repo: Repo, rid: str, spec: str, guarded_callees=None) -> RuleRes
     # the loop ranges over all problem objects
     loops = [n for n in ast.walk(f.node) if isinstance(n, ast.For) and any("problem_objects" in "/".join(x) for x in p.trace(n.iter))
              and any(any(x is w for x in ast.walk(n)) for w in work)]
+    # ... and EVERY object of a conforming type is bound: with the subtype test true, no way through one turn of the object loop
+    # (nor of the loops between it and the binding) may skip the binding -- a pre-filter by type name, a cache, a `continue`
+    r.site(f.qn + " [no conforming object skipped]")
+    pm = L.parents_of(f)
+    skipped = False
+    for w in work:
+        target = {g.node_containing(w) if not isinstance(w, ast.stmt) else g.node_of(w)}
+        cur = w
+        chain = []
+        while cur in pm:
+            cur = pm[cur]
+            if isinstance(cur, ast.For):
+                chain.append(cur)
+                if cur in loops:
+                    break
+        if not chain or chain[-1] not in loops:
+            continue
+        for lp in chain:
+            if not L.must_pass_in_loop(G, {"sub": True}, lp, target):
+                skipped = True
+            target = {g.node_of(lp)}
+    if skipped:
+        r.fail(Finding(rid, f, "range-skips", "an object whose type IS a subtype of the quantified type can be skipped before it is bound: "
+                       "the quantifier does not range over the type and all its subtypes"))
+    else:
+        r.ok({"conforming_objects": "bound on every path"})
     r.site(f.qn + " [all objects]")
     if loops and not any(any(s_.startswith("slice:") or s_.startswith("arg0:filter") for s_ in x) for lp in loops for x in p.trace(lp.iter)):
         r.ok({"iterates": unparse(loops[0].iter, 60)})
